@@ -277,7 +277,9 @@ def run(ctx):
         # tactics narrow such variables; the result must still speak about the same variable)
         lo_, hi_ = sorted(rng.sample(range(-4, 4), 2))
         atoms += [claripy.SGE(x, claripy.BVV(lo_ % 8, w)), claripy.SLE(x, claripy.BVV(hi_ % 8, w)), claripy.And(claripy.SGE(y, claripy.BVV(lo_ % 8, w)), claripy.SLE(y, claripy.BVV(hi_ % 8, w))),
-                  claripy.UGE(x, rng.randrange(4)), claripy.ULE(x, rng.randrange(4, 8))]
+                  claripy.UGE(x, rng.randrange(4)), claripy.ULE(x, rng.randrange(4, 8)),
+                  # constraints over y alone: with the x-only ones above they form independent groups (separate children of a composite)
+                  claripy.ULT(y, rng.randrange(1, 8)), y != rng.randrange(8), (y & 1) == 0, claripy.UGT(y, rng.randrange(0, 6))]
         # tautologies only Z3 recognises (the rest of the set may collapse to `true`), and constraints that simplification must keep as they are
         tauts = [claripy.UGE(x | 4, 4), claripy.Or(claripy.ULT(x, 5), claripy.UGE(x, 5)), (x ^ y) == (y ^ x), claripy.ULE(x & y, x), (x + y) - y == x]
         cons = rng.sample(atoms, rng.choice([0, 1, 2, 3, 4, 5])) + rng.sample(tauts, rng.choice([0, 0, 1, 2]))
@@ -290,9 +292,24 @@ def run(ctx):
         for cls in (claripy.Solver, claripy.SolverCacheless, claripy.SolverComposite, claripy.SolverHybrid, claripy.SolverReplacement):
             ctx.count()
             s = cls()
-            s.add(cons)
-            before = {(a, b) for a in range(8) for b in range(8) if all(E.ev(E.from_ast(c), {"mx": a, "my": b})[1] for c in s.constraints)}
+            # in two instalments, simplified after each (the second simplification meets constraints that are already simplified);
+            # `before` is always the model set of EVERYTHING added so far
+            cut = rng.randrange(len(cons) + 1) if rng.random() < 0.6 else len(cons)
+            if rng.random() < 0.3:
+                # independent groups arriving one after the other
+                xs_ = [c for c in cons if c.variables == frozenset(["mx"])]
+                ys_ = [c for c in cons if c.variables == frozenset(["my"])]
+                if xs_ and ys_:
+                    cons = xs_ + ys_
+                    cut = len(xs_)
             try:
+                if cut < len(cons) and cut > 0:
+                    s.add(cons[:cut])
+                    s.simplify()
+                    s.add(cons[cut:])
+                else:
+                    s.add(cons)
+                before = {(a, b) for a in range(8) for b in range(8) if all(E.ev(E.from_ast(c), {"mx": a, "my": b})[1] for c in cons)}
                 s.simplify()
             except claripy.errors.ClaripyError as ex:
                 ctx.violation("C09/%s.simplify/raises" % cls.__name__, "%s.simplify() raised %r on %s" % (cls.__name__, ex, cons), {"constraints": [repr(c) for c in cons]})
